@@ -462,6 +462,28 @@ class C15(Check):
                         bad("modify:eq-false-though-identical", dict(params=p, delta=delta))
                 except Exception as e:
                     bad(f"eq:raises-{type(e).__name__}", dict(params=p, error=str(e)))
+            # the sub-configurations have the same documented modify(): with the default cosmology, modifying the
+            # binning / the scales alone gives the binning / the scales of the configuration built from the merged parameters
+            default_cosmo = p.get("cosmology") in (None, "Planck15") and "cosmology" not in delta
+            bkeys = {"zmin", "zmax", "num_bins", "method", "edges", "closed"}
+            skeys = {"rmin", "rmax", "unit", "rweight", "resolution"}
+            if default_cosmo and delta and set(delta) <= bkeys:
+                counters["sub_config_modifications"] = counters.get("sub_config_modifications", 0) + 1
+                try:
+                    sub = cfg.binning.modify(**realise(delta))
+                    if not (np.array_equal(sub.edges, want.binning.edges) and str(sub.closed) == str(want.binning.closed)
+                            and str(sub.method) == str(want.binning.method) and sub == want.binning):
+                        bad("modify:binning-sub-config-differs-from-create", dict(params=p, delta=delta))
+                except Exception as e:
+                    bad(f"modify:binning-sub-config-raises-{type(e).__name__}:{want.binning.method}", dict(params=p, delta=delta, error=str(e)[:200]))
+            if delta and set(delta) <= skeys:
+                counters["sub_config_modifications"] = counters.get("sub_config_modifications", 0) + 1
+                try:
+                    sub = cfg.scales.modify(**realise(delta))
+                    if not (sub == want.scales and sub.to_dict() == want.scales.to_dict()):
+                        bad("modify:scales-sub-config-differs-from-create", dict(params=p, delta=delta))
+                except Exception as e:
+                    bad(f"modify:scales-sub-config-raises-{type(e).__name__}", dict(params=p, delta=delta, error=str(e)[:200]))
             if describe(cfg) != before:
                 bad("modify:mutates-original", dict(params=p, delta=delta))
             # structural equality: a modification that changed scales, edges, closed side or
